@@ -159,11 +159,12 @@ static void op_reinject(void) { inject_tag(1 - M_tag); seq(0xa0); PV_COUNT("ops.
 
 /* the library's own static / thread-local storage may change only in polyseed_inject and polyseed_enable_features */
 static int g_nranges; static bool g_baseline;
-static void guard_begin(void) { if (g_nranges && !g_baseline) { pv_static_snapshot(); g_baseline = true; } }
+static void guard_begin(void) { if (g_nranges && !g_baseline) { pv_static_snapshot(); g_baseline = true; } pv_static_probe_in_callbacks = g_nranges > 0; }
 static void guard_end(const char* op, bool exempt) {
     if (!g_nranges) return;
     PV_COUNT("static_storage.checks", 1);
-    if (exempt) { pv_static_snapshot(); return; }        /* inject / enable_features legitimately change polyseed_deps / the feature mask: new baseline */
+    pv_static_probe_in_callbacks = false;
+    if (exempt) { (void)pv_static_digest(); pv_static_snapshot(); return; }        /* inject / enable_features legitimately change polyseed_deps / the feature mask: new baseline */
     if (pv_static_digest() != 0) { vio(op, "hidden-static-state", "the library's static storage changed during %s: %s", op, pv_static_diff()); pv_static_snapshot(); }
 }
 
